@@ -948,3 +948,58 @@ Proof.
     unfold compressed_inv, init. destruct (fs_get (c_file c) fs0) as [[cnt d]|]; constructor. }
   unfold compressed_inv in HJ. rewrite Forall_forall in HJ. apply (HJ (F, ph) Hin Hph).
 Qed.
+
+(* ------------------------------------------------------------------ symbolic links: entry-level operations
+   commute with the view, so a symlinked log path rotates exactly like a plain one *)
+Lemma view_lookup store k L :
+  alookup name_eqb k (view store L) = option_map (resolve store) (alookup name_eqb k L).
+Proof. induction L as [|[k' e] L IH]; simpl; [reflexivity|]. destruct (name_eqb k k'); [reflexivity | exact IH]. Qed.
+
+Lemma view_aremove store k L : aremove name_eqb k (view store L) = view store (aremove name_eqb k L).
+Proof. induction L as [|[k' e] L IH]; simpl; [reflexivity|]. destruct (name_eqb k k'); simpl; [exact IH | f_equal; exact IH]. Qed.
+
+Lemma view_remove store n L : view store (l_remove n L) = fs_remove n (view store L).
+Proof. unfold l_remove, fs_remove. symmetry. apply view_aremove. Qed.
+
+Lemma view_rename store o n L : view store (l_rename o n L) = fs_rename o n (view store L).
+Proof.
+  unfold l_rename, fs_rename, fs_get, fs_put, fs_remove, aset. rewrite view_lookup.
+  destruct (alookup name_eqb o L) as [e|]; simpl; [|reflexivity].
+  rewrite !view_aremove. reflexivity.
+Qed.
+
+Lemma view_create store n L : view store (l_create n L) = fs_put n ([], 0%nat) (view store L).
+Proof. unfold l_create, fs_put, aset. simpl. rewrite view_aremove. reflexivity. Qed.
+
+(* rotate :347-361 on a path that is any kind of entry (a link in particular): seen through open(), the
+   directory changes exactly as Model.rotate changes a plain one; the backup name now carries the very entry the
+   path carried (the same link to the same target, whose content nobody touches any more), and the path is a
+   fresh empty regular file *)
+Lemma al_remove_other {V} (M : list (name * V)) k k' :
+  k <> k' -> alookup name_eqb k (aremove name_eqb k' M) = alookup name_eqb k M.
+Proof.
+  intros Hk. induction M as [|[a b] M IH]; simpl; [reflexivity|].
+  destruct (name_eqb k' a) eqn:E1.
+  - apply name_eqb_eq in E1; subst. rewrite (name_eqb_neq k a Hk). exact IH.
+  - simpl. destruct (name_eqb k a); [reflexivity | exact IH].
+Qed.
+
+Lemma al_set_same {V} (M : list (name * V)) k v : alookup name_eqb k (aset name_eqb k v M) = Some v.
+Proof. unfold aset. simpl. rewrite name_eqb_refl. reflexivity. Qed.
+
+Lemma al_set_other {V} (M : list (name * V)) k k' v :
+  k <> k' -> alookup name_eqb k (aset name_eqb k' v M) = alookup name_eqb k M.
+Proof. intro H. unfold aset. simpl. rewrite (name_eqb_neq k k' H). apply al_remove_other; assumption. Qed.
+
+Lemma symlink_rotation store file B L e :
+  file <> B -> alookup name_eqb file L = Some e ->
+  let L' := l_create file (l_rename file B L) in
+  view store L' = fs_put file ([], 0%nat) (fs_rename file B (view store L)) /\
+  alookup name_eqb B L' = Some e /\
+  alookup name_eqb file L' = Some (Reg ([], 0%nat)).
+Proof.
+  intros Hne He L'. subst L'. split; [rewrite view_create, view_rename; reflexivity|].
+  unfold l_create, l_rename. rewrite He. split.
+  - rewrite al_set_other by congruence. apply al_set_same.
+  - apply al_set_same.
+Qed.
